@@ -407,6 +407,35 @@ def inline_body(F, b, pred=None, depth=3, stack=(), max_blocks=600, drops=False,
     return nb
 
 
+def lending_pred(F):
+    """default_pred, plus the crate's functions that lend something to a callable parameter (`with_arc(&self, f: impl FnOnce(&Arc<T>)
+    -> U)`), public or not: with the closures handed to them inlined as well, `a.with_arc(|x| b.with_arc(|y| x.cmp(y)))` is straight
+    code."""
+    p = F.__dict__.get("_lending_pred")
+    if p is not None:
+        return p
+    dp = default_pred(F)
+
+    def pred(key):
+        if dp(key):
+            return True
+        cb = F.body(key)
+        if cb is None or cb["kind"] not in ("Fn", "AssocFn") or _returns_typed_block(F, cb):
+            return False
+        return any(pr.get("kind") == "trait" and pr.get("trait") in FN_TRAITS and F.ty(pr.get("self", 0))["k"] == "param" for pr in cb.get("preds", []))
+
+    F.__dict__["_lending_pred"] = pred
+    return pred
+
+
+def inlined_lending(F, key):
+    cache = F.__dict__.setdefault("_inlined_lending_bodies", {})
+    if key not in cache:
+        b = F.body(key)
+        cache[key] = inline_body(F, b, lending_pred(F), depth=5, closures=True) if b is not None else None
+    return cache[key]
+
+
 def inlined_full(F, key):
     """Private helpers and the closures handed to them, inlined (a visitor `with_arc(|x| .., |y| ..)` becomes straight code)."""
     cache = F.__dict__.setdefault("_inlined_full_bodies", {})
